@@ -124,6 +124,11 @@ def run_equal(task):
     opts = {k: v for k, v in ov.items() if not k.startswith("_")}
     if ov.get("_plain"):
         opts.setdefault("commit-style", "yellow")   # delta's default commit-style is raw
+        if ov.get("diff-highlight"):
+            # the diff-highlight emulation styles these elements `raw`: raw elements keep their input
+            # colouring by definition and are outside the equality claim
+            opts.setdefault("file-style", "blue")
+            opts.setdefault("hunk-header-style", "blue")
     args = build_args(base_opts(opts, reserved=not ov.get("_plain")))
     drv = explore.get_driver()
     try:
@@ -223,8 +228,10 @@ def moved_input(params, sign):
     return head + esc + b"+" + b"\x1b[m" + esc + b"moved text" + b"\x1b[m\n ctx2\n"
 
 
-def is_plain(params, sign):
-    return params == ("31" if sign == "-" else "32")
+def is_plain(params, want, sign):
+    """git's plain removed/added colour in any encoding: 31 and 38;5;1 are the same colour (red, no
+    attribute, no background), likewise 32 and 38;5;2"""
+    return want == (("i", 1 if sign == "-" else 2), None, 0)
 
 
 def run_moved(task):
@@ -244,7 +251,7 @@ def run_moved(task):
         meta = []
         for params, want in chunk:
             for sign in "-+":
-                if is_plain(params, sign):
+                if is_plain(params, want, sign):
                     continue
                 inputs.append(moved_input(params, sign))
                 meta.append((params, want, sign))
